@@ -21,6 +21,18 @@ CLAIMS = {
         "DESIGN.md §4 C09"),
 }
 
+CLAIMS["C11"] = (
+    "static analysis: finite-map extraction of the ConditionChain automaton and #if operator tables compared with the "
+    "C reference; MIR dominance of every directive effect by the skip==false edge; call-graph level chain",
+    "Decides the whole mechanism: transition table (6 entries) against the reference automaton, empty-chain errors, "
+    "is_active, pushed states and #ifndef negation, end-of-file check; every effectful call site in preprocess_command "
+    "and flush_normal is dominated by the activity test (no sampling: all call sites of the function's MIR); the #if "
+    "evaluator's operator semantics over a complete set of operand orderings, precedence chain, token tables through "
+    "the lexer's extracted symbol table, leaf table, result test. Does not decide that a directive line's tokens reach "
+    "preprocess_command unchanged.",
+    TRUSTED + "Reference automaton / operator semantics of ISO C typed into the rule (DESIGN.md App. A).",
+    "DESIGN.md §4 C11")
+
 NOT_YET = "rules for this property are not built yet in this round (see DESIGN.md §10 build order); no claim is made"
 
 
